@@ -93,7 +93,7 @@ type scenario struct {
 	runs     []runSpec
 	procs    int
 	yieldAll bool
-	silent   bool // oracle-only scenario: uses the GC phase, which the machine does not cover
+	silent   bool // oracle-only scenario: no protocol lines (for corpus cases outside the machine)
 }
 
 func (s *scenario) decls() []string {
@@ -109,7 +109,7 @@ func (s *scenario) decls() []string {
 	}
 	for r, rs := range s.runs {
 		m := s.mgrs[rs.mgr]
-		out = append(out, fmt.Sprintf("run %d %d %s", r, m.batch, csv(m.facs())))
+		out = append(out, fmt.Sprintf("run %d %d %s %s", r, m.batch, b01(m.retention != 0), csv(m.facs())))
 	}
 	return out
 }
@@ -204,7 +204,7 @@ type world struct {
 	lastTry    int
 	failures   int
 	flags      map[string]bool
-	silent     bool // no protocol lines: the scenario uses code the machine does not cover (GC phase)
+	silent     bool // no protocol lines
 	gcHolders  int  // Run goroutines holding the "garbage-collection" lock
 	gcHook     func(run int)
 }
@@ -417,23 +417,37 @@ func (l *lockSrc) TryLock(ctx context.Context, key string) (context.Context, con
 	w.preStore()
 	w.mu.Lock()
 	defer w.mu.Unlock()
-	if _, isRun := w.runOfGo[g]; isRun {
-		// the garbage-collection lock taken by Run itself: not part of the machine
+	if rr, isRun := w.runOfGo[g]; isRun {
+		// the garbage-collection lock taken by Run itself
 		w.r.Count("gc:trylock")
 		w.lastTry = 0
 		c, f := l.real.TryLock(ctx, key)
-		if w.lastTry != 1 {
+		if key != "garbage-collection" || w.lastTry == 0 {
+			w.stray("run-trylock")
 			return c, f
 		}
-		w.gcHolders++
+		out := "busy"
+		if w.lastTry == 1 {
+			out = "acq"
+			if c.Err() != nil {
+				out = "acqdead"
+			}
+			w.gcHolders++
+		}
+		got := w.lastTry == 1
+		w.r.Count("gc:" + out)
+		w.op(fmt.Sprintf("gctry %d", rr), out)
 		var once sync.Once
 		return c, func() {
 			once.Do(func() {
 				w.mu.Lock()
-				w.gcHolders--
+				if got {
+					w.gcHolders--
+				}
+				w.op(fmt.Sprintf("gcdone %d", rr), "done")
+				f()
 				w.mu.Unlock()
 			})
-			f()
 		}
 	}
 	r, okr := ctx.Value(runKey{}).(int)
@@ -927,9 +941,9 @@ func genScenario(rnd *hx.Rand, r *hx.Run) *scenario {
 				r.Count("gen:duplicate-name")
 			}
 		}
-		if retention == 0 && rnd.Chance(1, 60) && !usedIn[f][1] {
-			// an updater called "garbage-collection"; with GC enabled the name collides with the
-			// manager's own lock (finding gc-lock-name-collision, replayed by gcCollisionWitness)
+		if rnd.Chance(1, 50) && !usedIn[f][1] {
+			// an updater called "garbage-collection": with GC enabled the name collides with the
+			// manager's own lock (finding gc-lock-name-collision)
 			s.name = 1
 		}
 		usedIn[f][s.name] = true
@@ -1190,7 +1204,7 @@ func fixedScenarios() []*scenario {
 	k0 := ok(0, 2, 'p', 3, 1)
 	k0.gate = true
 	out = append(out, one([]*script{k0, ok(1, 3, 'p', 3, 1), ok(2, 4, 'p', 3, 1)}, nil, 1, []runSpec{{phase: 0, plan: cancelPlan{kind: "timer", n: 300}}}))
-	// witness of finding gc-lock-name-collision (oracle only: the GC phase is not in the machine):
+	// witness of finding gc-lock-name-collision:
 	// run 1 starts while run 0 holds the "garbage-collection" lock inside store.GC; its
 	// updater of that name finds the lock taken and is skipped although no updater of
 	// that name is running.
@@ -1198,7 +1212,6 @@ func fixedScenarios() []*scenario {
 	gc.fmode = 3
 	w := one([]*script{gc, ok(1, 3, 'p', 3, 1)}, nil, 2, []runSpec{{phase: 0}, {phase: 0, startGC: 1}})
 	w.mgrs[0].retention = 2
-	w.silent = true
 	out = append(out, w)
 	return out
 }
